@@ -1152,6 +1152,11 @@ class WorkflowConductor(object):
         if retry_tally >= retry_count:
             return False
 
+        # A task can only be retried from a status that the task state machine can reopen.
+        # For example, a canceled task cannot be retried.
+        if not machines.TaskStateMachine.is_transition_valid(task_status, statuses.RETRYING):
+            return False
+
         if task_status in statuses.ABENDED_STATUSES and task_state_entry["retry"]["when"] is None:
             return True
 
